@@ -63,6 +63,12 @@ func init() {
 				{File: "internal/routing/manager.go", Old: "\t\t\tMetric:      entry.Metric + 1, // Increment metric\n\t\t\tPath:        path,\n\t\t\tEncPath:     encPath,\n\t\t\tSequence:    sequence,\n\t\t}\n\n\t\tif m.table.AddRoute(route) {", New: "\t\t\tMetric:      metricViaPeer(entry.Metric),\n\t\t\tPath:        path,\n\t\t\tEncPath:     encPath,\n\t\t\tSequence:    sequence,\n\t\t}\n\n\t\tif m.table.AddRoute(route) {"},
 				{File: "internal/routing/manager.go", Old: "// RouteEntry is a simplified route for advertisements.", New: "func metricViaPeer(advertised uint16) uint16 {\n\treturn advertised\n}\n\n// RouteEntry is a simplified route for advertisements."},
 			}},
+			{Name: "rewrite: learned record copied from a per-advertisement template", Edits: []Edit{
+				{File: "internal/routing/manager.go", Old: "\tfor _, entry := range routes {\n\t\troute := &Route{\n\t\t\tNetwork:     entry.Network,\n\t\t\tNextHop:     fromPeer,\n\t\t\tOriginAgent: originAgent,\n\t\t\tMetric:      entry.Metric + 1, // Increment metric\n\t\t\tPath:        path,\n\t\t\tEncPath:     encPath,\n\t\t\tSequence:    sequence,\n\t\t}\n", New: "\ttemplate := Route{NextHop: fromPeer, OriginAgent: originAgent, Path: path, EncPath: encPath, Sequence: sequence}\n\tfor _, entry := range routes {\n\t\tlearned := template\n\t\tlearned.Network = entry.Network\n\t\tlearned.Metric = entry.Metric + 1\n\t\troute := &learned\n"},
+			}},
+			{Name: "template copy takes the advertised metric as it is", ExpectRule: "C13.R1", ExpectKey: "ProcessRouteAdvertise", Edits: []Edit{
+				{File: "internal/routing/manager.go", Old: "\tfor _, entry := range routes {\n\t\troute := &Route{\n\t\t\tNetwork:     entry.Network,\n\t\t\tNextHop:     fromPeer,\n\t\t\tOriginAgent: originAgent,\n\t\t\tMetric:      entry.Metric + 1, // Increment metric\n\t\t\tPath:        path,\n\t\t\tEncPath:     encPath,\n\t\t\tSequence:    sequence,\n\t\t}\n", New: "\ttemplate := Route{NextHop: fromPeer, OriginAgent: originAgent, Path: path, EncPath: encPath, Sequence: sequence}\n\tfor _, entry := range routes {\n\t\tlearned := template\n\t\tlearned.Network = entry.Network\n\t\tlearned.Metric = entry.Metric\n\t\troute := &learned\n"},
+			}},
 			{Name: "rewrite: forwarded routes built with append and an explicit +1", Edits: []Edit{
 				{File: "internal/flood/flood.go", Old: "\tfwdRoutes := make([]protocol.Route, len(routes))\n\tfor i, r := range routes {\n\t\tr.Metric++\n\t\tfwdRoutes[i] = r\n\t}\n", New: "\tvar fwdRoutes []protocol.Route\n\tfor _, r := range routes {\n\t\tfwdRoutes = append(fwdRoutes, protocol.Route{AddressFamily: r.AddressFamily, PrefixLength: r.PrefixLength, Prefix: r.Prefix, Metric: 1 + r.Metric})\n\t}\n"},
 			}},
@@ -96,6 +102,54 @@ func c13RouteLits(p *kit.Program) []*c13Lit {
 	var out []*c13Lit
 	ords := map[string]int{}
 	for _, fn := range p.FuncsInPkg("internal/routing") {
+		// struct copies: `learned := template` stores the loaded template into the new record;
+		// the copy starts with the template's fields, and a record that is only a template (its
+		// address is used for nothing but initialisation and being copied) is not a record itself
+		copiedFrom := map[*ssa.Alloc]*ssa.Alloc{}
+		isTemplate := map[*ssa.Alloc]bool{}
+		kit.Instrs(fn, func(in ssa.Instruction) {
+			st, ok := in.(*ssa.Store)
+			if !ok {
+				return
+			}
+			dst, ok1 := st.Addr.(*ssa.Alloc)
+			ld, ok2 := st.Val.(*ssa.UnOp)
+			if !ok1 || !ok2 || ld.Op != token.MUL {
+				return
+			}
+			if src, ok := ld.X.(*ssa.Alloc); ok && src != dst {
+				copiedFrom[dst] = src
+				isTemplate[src] = true
+			}
+		})
+		for src := range isTemplate {
+			if src.Referrers() == nil {
+				continue
+			}
+			for _, ref := range *src.Referrers() {
+				switch x := ref.(type) {
+				case *ssa.FieldAddr:
+				case *ssa.UnOp:
+					// loads are fine when they only feed whole-struct copies
+					if x.Referrers() != nil {
+						for _, r2 := range *x.Referrers() {
+							if st, ok := r2.(*ssa.Store); !ok || st.Val != ssa.Value(x) {
+								isTemplate[src] = false
+							} else if _, toAlloc := st.Addr.(*ssa.Alloc); !toAlloc {
+								isTemplate[src] = false
+							}
+						}
+					}
+				case *ssa.Store:
+					if x.Addr != ssa.Value(src) {
+						isTemplate[src] = false // the pointer itself is stored somewhere
+					}
+				case *ssa.DebugRef:
+				default:
+					isTemplate[src] = false // passed on, returned, …
+				}
+			}
+		}
 		kit.Instrs(fn, func(in ssa.Instruction) {
 			a, ok := in.(*ssa.Alloc)
 			if !ok {
@@ -105,7 +159,18 @@ func c13RouteLits(p *kit.Program) []*c13Lit {
 			if n == nil || c11HasField(n, "NextHop") == nil || c11HasField(n, "Metric") == nil || c11HasField(n, "Path") == nil {
 				return
 			}
+			if isTemplate[a] {
+				return
+			}
 			vals, _ := c11FieldStores(a)
+			if src := copiedFrom[a]; src != nil && isTemplate[src] {
+				base, _ := c11FieldStores(src)
+				for k, v := range base {
+					if _, own := vals[k]; !own {
+						vals[k] = v
+					}
+				}
+			}
 			if len(vals) == 0 {
 				return // Clone() targets etc. are filled field by field from another record; literals have stores too, filter below
 			}
